@@ -66,7 +66,7 @@ func textOfLen(class string, n int) string {
 func C17(tier string) {
 	r := ev.Begin("C17", tier, "exploration")
 	r.NotExhaustive()
-	r.Rule("profiles from a layout grammar: tag counts 0..64 with the description at every table position (<= 8 tags) or first/middle/last; every order of the data blocks for <= 5 tags, every 0-3 byte padding pattern for <= 4 tags, blocks shared by 2-3 tags; v2 descriptions of every length 0..300 and 1999/2000 with printable, DEL and high-bit bytes; v4 mluc with 1..6 records in every record order (<= 5), 40 records, string placements {table order, reverse, gapped, shared, overlapping}, record sizes 12/16, 'en' present at every position / absent / twice with different countries, strings of length 0..40 and 2000 over ASCII, BMP and surrogate-pair alphabets; distinct = distinct profile byte strings")
+	r.Rule("profiles from a layout grammar: tag counts 0..64 with the description at every table position (<= 8 tags) or first/middle/last; every order of the data blocks for <= 5 tags, every 0-3 byte padding pattern for <= 4 tags, blocks shared by 2-3 tags; v2 descriptions of every length 0..300 and 1999/2000 with printable, DEL and high-bit bytes; v4 mluc with 1..6 records in every record order (<= 5), 40 records, string placements {table order, reverse, gapped, shared, overlapping}, record sizes 12/16, 'en' present at every position / absent / twice with different countries, strings of length 0..40 and 2000 over ASCII, BMP and surrogate-pair alphabets; distinct = distinct profile byte strings; plus every sequence of up to 4 (thorough 5) operations {Read(P1..P5), Description(any profile object read earlier)}, each description compared with that of its own profile (profiles of equal size and equal ID, a tag that does not parse)")
 	r.Assume("expected description: ASCII bytes before the NUL (v2); for mluc any string of an 'en' record when one exists, otherwise any record's string, each decoded by unicode/utf16 from the record's declared offset and length")
 	seen := map[string]bool{}
 
@@ -372,6 +372,11 @@ func C17(tier string) {
 		try("mluc/empty-en-with-others", mlucProfile(tag), expectFor(recs, texts), "mluc with an fr record and an en record whose string is empty")
 	}
 
+	depth := 4
+	if tier == "thorough" {
+		depth = 5
+	}
+	iccSequences(r, depth, "sequence", false, true)
 	r.DistinctN(int64(len(seen)))
 	tag, texts := gen.Mluc([]gen.MlucRecord{pool[1], pool[0], pool[2]}, 16, gen.MlucReverse)
 	r.Sample(map[string]interface{}{"layout": "mluc fr,en,ja reverse placement record size 16", "profile_hex": hex.EncodeToString(mlucProfile(tag)), "record_strings": texts})
